@@ -190,9 +190,9 @@ def run(ctx):
             for h in t.handlers:
                 if creates and any(x.endswith('DBDuplicateEntryError')
                                    for x in U.handler_types(h)):
-                    txt = ' '.join(ast.unparse(h).split())
-                    ok = 'get_workflow_execution(wf_ex_id)' in txt and \
-                        'return' in txt
+                    ok = U.phas(h, '___.get_workflow_execution(wf_ex_id)') \
+                        and any(isinstance(x, ast.Return)
+                                for x in ast.walk(h))
     r2.check(ok, ctx.construct(sw, extra='duplicate id handler'),
              'no DBDuplicateEntryError handler returning the existing '
              'execution around the creating transaction', ctx.loc(sw))
@@ -202,7 +202,9 @@ def run(ctx):
         if isinstance(t, ast.Try):
             for h in t.handlers:
                 if any('DBDuplicateEntry' in x for x in U.handler_types(h)) \
-                        and 'DBDuplicateEntryError' in ast.unparse(h):
+                        and any(isinstance(x, ast.Raise) and x.exc is not None
+                                and 'DBDuplicateEntryError' in norm(x.exc)
+                                for x in ast.walk(h)):
                     ok = True
     r2.check(ok, ctx.construct(cw), 'driver duplicate error is not '
              'converted to DBDuplicateEntryError', ctx.loc(cw))
@@ -275,10 +277,13 @@ def run(ctx):
              'results' % n_send, ctx.loc(seb))
     es = prog.func('mistral.executors.executor_server.ExecutorServer.'
                    'run_action')
-    txt = ' '.join(ast.unparse(es.node).split())
     fw = [n for n in own_nodes(es.node) if isinstance(n, ast.Call) and
           U.call_dotted(n) == 'self.executor.run_action']
-    r4.check('rpc_ctx.redelivered' in txt and fw and any(
+    src_ok = any(isinstance(n, ast.Assign) and
+                 dotted(n.targets[0]) == 'redelivered' and
+                 U.phas(n.value, 'rpc_ctx.redelivered')
+                 for n in own_nodes(es.node))
+    r4.check(src_ok and fw and any(
         isinstance(a, ast.Name) and a.id == 'redelivered'
         for c in fw for a in list(c.args) + [k.value for k in c.keywords]),
         ctx.construct(es, extra='forwards redelivered'),
